@@ -1,19 +1,435 @@
-// libc wrappers that redirect paths under /sim to simfs (DESIGN 2.3)
+// libc wrappers that redirect paths under /sim (and descriptors opened there) to simfs (DESIGN 2.3).
+// Every other path/descriptor passes through to the real function.
+#include "sim/detsched.h"
 #include "sim/simfs.h"
+#include "sim/simos.h"
 
 #include <cerrno>
+#include <cstdarg>
+#include <cstdio>
+#include <cstdlib>
+#include <cstring>
+#include <dirent.h>
+#include <fcntl.h>
+#include <set>
+#include <sys/mman.h>
+#include <sys/stat.h>
+#include <sys/statfs.h>
+#include <sys/time.h>
 #include <unistd.h>
+
+using simfs::FS;
+using simfs::fs;
 
 extern "C" {
 int __real_unlink(const char*);
+int __real_stat(const char*, struct stat*);
+int __real_lstat(const char*, struct stat*);
+int __real_fstat(int, struct stat*);
+int __real_access(const char*, int);
+int __real_open(const char*, int, ...);
+int __real_mkdir(const char*, mode_t);
+int __real_rmdir(const char*);
+int __real_remove(const char*);
+int __real_rename(const char*, const char*);
+int __real_symlink(const char*, const char*);
+ssize_t __real_readlink(const char*, char*, size_t);
+char* __real_realpath(const char*, char*);
+char* __real_getcwd(char*, size_t);
+int __real_chdir(const char*);
+int __real_chmod(const char*, mode_t);
+int __real_link(const char*, const char*);
+DIR* __real_opendir(const char*);
+struct dirent* __real_readdir(DIR*);
+int __real_closedir(DIR*);
+FILE* __real_fopen(const char*, const char*);
+void* __real_mmap(void*, size_t, int, int, int, off_t);
+int __real_statfs(const char*, struct statfs*);
+int __real_fstatfs(int, struct statfs*);
+int __real_futimes(int, const struct timeval[2]);
+char* __real_mkdtemp(char*);
+}
+
+namespace {
+
+struct SimDir {
+  uint64_t magic = 0x51D1D1D1;
+  std::vector<std::string> names;
+  std::vector<simfs::Inode::Type> types;
+  std::vector<uint64_t> inos;
+  size_t pos = 0;
+  struct dirent ent;
+};
+std::set<void*> g_dirs;
+
+// relative paths are simulated when the simulated working directory is in use
+bool g_simCwd = false;
+
+bool isSim(const char* path) {
+  if (!path) return false;
+  if (FS::isSimPath(path)) return true;
+  if (path[0] != '/' && g_simCwd) return true;
+  return false;
+}
+
+int fail(int e) {
+  errno = e;
+  return -1;
+}
+
+void fillStat(const simfs::StatBuf& sb, struct stat* st) {
+  memset(st, 0, sizeof(*st));
+  st->st_dev = sb.dev;
+  st->st_ino = sb.ino;
+  st->st_nlink = sb.nlink;
+  st->st_mode = sb.mode | (sb.type == simfs::Inode::Dir ? S_IFDIR : sb.type == simfs::Inode::Symlink ? S_IFLNK : S_IFREG);
+  st->st_uid = 0;
+  st->st_gid = 0;
+  st->st_size = (off_t)sb.size;
+  st->st_blksize = 4096;
+  st->st_blocks = (sb.size + 511) / 512;
+  st->st_mtim.tv_sec = (time_t)(sb.mtime_ns / 1000000000ULL);
+  st->st_mtim.tv_nsec = (long)(sb.mtime_ns % 1000000000ULL);
+  st->st_ctim.tv_sec = (time_t)(sb.ctime_ns / 1000000000ULL);
+  st->st_ctim.tv_nsec = (long)(sb.ctime_ns % 1000000000ULL);
+  st->st_atim = st->st_mtim;
+}
+
+} // namespace
+
+namespace simfs {
+void useSimCwd(bool on) { g_simCwd = on; }
+}
+
+extern "C" {
 
 int __wrap_unlink(const char* path) {
-  if (!simfs::FS::isSimPath(path)) return __real_unlink(path);
-  int rc = simfs::fs().unlink(path);
-  if (rc) {
-    errno = rc;
-    return -1;
-  }
+  if (!isSim(path)) return __real_unlink(path);
+  int rc = fs().unlink(path);
+  return rc ? fail(rc) : 0;
+}
+
+int __wrap_stat(const char* path, struct stat* st) {
+  if (!isSim(path)) return __real_stat(path, st);
+  simfs::StatBuf sb;
+  int rc = fs().stat(path, true, &sb);
+  if (rc) return fail(rc);
+  fillStat(sb, st);
   return 0;
 }
+
+int __wrap_lstat(const char* path, struct stat* st) {
+  if (!isSim(path)) return __real_lstat(path, st);
+  simfs::StatBuf sb;
+  int rc = fs().stat(path, false, &sb);
+  if (rc) return fail(rc);
+  fillStat(sb, st);
+  return 0;
 }
+
+int __wrap_fstat(int fd, struct stat* st) {
+  if (!simos::isSimFd(fd)) return __real_fstat(fd, st);
+  auto it = simos::fds().find(fd);
+  if (it == simos::fds().end()) return fail(EBADF);
+  if (it->second.kind == simos::Fd::File) {
+    simfs::StatBuf sb;
+    fs().fillStat(it->second.file->ino, &sb);
+    fillStat(sb, st);
+    return 0;
+  }
+  memset(st, 0, sizeof(*st));
+  st->st_mode = it->second.kind == simos::Fd::Null ? S_IFCHR | 0666 : S_IFIFO | 0600;
+  return 0;
+}
+
+int __wrap_access(const char* path, int mode) {
+  if (!isSim(path)) return __real_access(path, mode);
+  simfs::StatBuf sb;
+  int rc = fs().stat(path, true, &sb);
+  if (rc) return fail(rc);
+  if ((mode & X_OK) && sb.type == simfs::Inode::File && !(sb.mode & 0111)) return fail(EACCES);
+  return 0;
+}
+
+int __wrap_open(const char* path, int flags, ...) {
+  mode_t mode = 0;
+  if (flags & O_CREAT) {
+    va_list ap;
+    va_start(ap, flags);
+    mode = (mode_t)va_arg(ap, int);
+    va_end(ap);
+  }
+  if (!isSim(path)) return __real_open(path, flags, mode);
+  simfs::InodeP ino;
+  int rc;
+  if (flags & O_CREAT) rc = fs().createFile(path, (flags & O_EXCL) != 0, (flags & O_TRUNC) != 0, &ino, mode & 0777);
+  else {
+    rc = fs().lookup(path, !(flags & O_NOFOLLOW), &ino);
+    if (!rc && (flags & O_TRUNC) && ino->type == simfs::Inode::File) fs().truncate(ino, 0);
+  }
+  if (rc) return fail(rc);
+  if ((flags & O_DIRECTORY) && ino->type != simfs::Inode::Dir) return fail(ENOTDIR);
+  if (ino->type == simfs::Inode::Dir && (flags & O_ACCMODE) != O_RDONLY) return fail(EISDIR);
+  simos::Fd f;
+  f.kind = simos::Fd::File;
+  f.file = std::make_shared<simos::OpenFile>();
+  f.file->ino = ino;
+  f.file->flags = flags;
+  f.file->path = fs().absolute(path);
+  f.cloexec = (flags & O_CLOEXEC) != 0;
+  return simos::allocFd(f);
+}
+
+int __wrap_mkdir(const char* path, mode_t mode) {
+  if (!isSim(path)) return __real_mkdir(path, mode);
+  int rc = fs().mkdir(path, mode & 0777);
+  return rc ? fail(rc) : 0;
+}
+
+int __wrap_rmdir(const char* path) {
+  if (!isSim(path)) return __real_rmdir(path);
+  int rc = fs().rmdir(path);
+  return rc ? fail(rc) : 0;
+}
+
+int __wrap_remove(const char* path) {
+  if (!isSim(path)) return __real_remove(path);
+  simfs::StatBuf sb;
+  int rc = fs().stat(path, false, &sb);
+  if (rc) return fail(rc);
+  rc = sb.type == simfs::Inode::Dir ? fs().rmdir(path) : fs().unlink(path);
+  return rc ? fail(rc) : 0;
+}
+
+int __wrap_rename(const char* from, const char* to) {
+  if (!isSim(from) && !isSim(to)) return __real_rename(from, to);
+  if (!isSim(from) || !isSim(to)) return fail(EXDEV);
+  int rc = fs().rename(from, to);
+  return rc ? fail(rc) : 0;
+}
+
+int __wrap_symlink(const char* target, const char* linkpath) {
+  if (!isSim(linkpath)) return __real_symlink(target, linkpath);
+  int rc = fs().symlink(target, linkpath);
+  return rc ? fail(rc) : 0;
+}
+
+ssize_t __wrap_readlink(const char* path, char* buf, size_t len) {
+  if (!isSim(path)) return __real_readlink(path, buf, len);
+  std::string t;
+  int rc = fs().readlink(path, &t);
+  if (rc) return fail(rc);
+  size_t n = std::min(len, t.size());
+  memcpy(buf, t.data(), n);
+  return (ssize_t)n;
+}
+
+char* __wrap_realpath(const char* path, char* resolved) {
+  if (!isSim(path)) return __real_realpath(path, resolved);
+  std::string out;
+  int rc = fs().realpath(path, &out);
+  if (rc) {
+    errno = rc;
+    return nullptr;
+  }
+  if (!resolved) resolved = (char*)malloc(out.size() + 1 > 4096 ? out.size() + 1 : 4096);
+  memcpy(resolved, out.c_str(), out.size() + 1);
+  return resolved;
+}
+
+char* __wrap_getcwd(char* buf, size_t size) {
+  if (!g_simCwd) return __real_getcwd(buf, size);
+  const std::string& c = fs().cwd;
+  if (!buf) {
+    buf = (char*)malloc(c.size() + 1 > size ? c.size() + 1 : size);
+  } else if (c.size() + 1 > size) {
+    errno = ERANGE;
+    return nullptr;
+  }
+  memcpy(buf, c.c_str(), c.size() + 1);
+  return buf;
+}
+
+int __wrap_chdir(const char* path) {
+  if (!isSim(path)) {
+    if (g_simCwd) return fail(ENOENT);
+    return __real_chdir(path);
+  }
+  int rc = fs().chdir(path);
+  if (rc) return fail(rc);
+  g_simCwd = true;
+  return 0;
+}
+
+int __wrap_chmod(const char* path, mode_t mode) {
+  if (!isSim(path)) return __real_chmod(path, mode);
+  simfs::InodeP ino;
+  int rc = fs().lookup(path, true, &ino);
+  if (rc) return fail(rc);
+  ino->mode = mode & 07777;
+  return 0;
+}
+
+int __wrap_link(const char* from, const char* to) {
+  if (!isSim(from) && !isSim(to)) return __real_link(from, to);
+  return fail(EPERM);
+}
+
+DIR* __wrap_opendir(const char* path) {
+  if (!isSim(path)) return __real_opendir(path);
+  simfs::InodeP ino;
+  int rc = fs().lookup(path, true, &ino);
+  if (rc) {
+    errno = rc;
+    return nullptr;
+  }
+  if (ino->type != simfs::Inode::Dir) {
+    errno = ENOTDIR;
+    return nullptr;
+  }
+  SimDir* d = new SimDir();
+  fs().listdir(path, &d->names);
+  for (auto& n : d->names) {
+    auto& e = ino->entries[n];
+    d->types.push_back(e->type);
+    d->inos.push_back(e->ino);
+  }
+  g_dirs.insert(d);
+  return reinterpret_cast<DIR*>(d);
+}
+
+struct dirent* __wrap_readdir(DIR* dp) {
+  if (!g_dirs.count(dp)) return __real_readdir(dp);
+  SimDir* d = reinterpret_cast<SimDir*>(dp);
+  if (d->pos >= d->names.size()) return nullptr;
+  memset(&d->ent, 0, sizeof(d->ent));
+  d->ent.d_ino = d->inos[d->pos];
+  d->ent.d_type = d->types[d->pos] == simfs::Inode::Dir ? DT_DIR : d->types[d->pos] == simfs::Inode::Symlink ? DT_LNK : DT_REG;
+  strncpy(d->ent.d_name, d->names[d->pos].c_str(), sizeof(d->ent.d_name) - 1);
+  d->pos++;
+  return &d->ent;
+}
+
+int __wrap_closedir(DIR* dp) {
+  if (!g_dirs.count(dp)) return __real_closedir(dp);
+  g_dirs.erase(dp);
+  delete reinterpret_cast<SimDir*>(dp);
+  return 0;
+}
+
+void* __wrap_mmap(void* addr, size_t len, int prot, int flags, int fd, off_t off) {
+  if (simos::isSimFd(fd)) {
+    // makes llvm::MemoryBuffer fall back to read()
+    errno = ENODEV;
+    return MAP_FAILED;
+  }
+  return __real_mmap(addr, len, prot, flags, fd, off);
+}
+
+int __wrap_statfs(const char* path, struct statfs* st) {
+  if (!isSim(path)) return __real_statfs(path, st);
+  simfs::StatBuf sb;
+  int rc = fs().stat(path, true, &sb);
+  if (rc) return fail(rc);
+  memset(st, 0, sizeof(*st));
+  st->f_type = 0xEF53;
+  st->f_bsize = 4096;
+  return 0;
+}
+
+int __wrap_fstatfs(int fd, struct statfs* st) {
+  if (!simos::isSimFd(fd)) return __real_fstatfs(fd, st);
+  memset(st, 0, sizeof(*st));
+  st->f_type = 0xEF53;
+  st->f_bsize = 4096;
+  return 0;
+}
+
+int __wrap_futimes(int fd, const struct timeval tv[2]) {
+  if (!simos::isSimFd(fd)) return __real_futimes(fd, tv);
+  auto it = simos::fds().find(fd);
+  if (it == simos::fds().end() || it->second.kind != simos::Fd::File) return fail(EBADF);
+  if (tv) it->second.file->ino->mtime_ns = (uint64_t)tv[1].tv_sec * 1000000000ULL + (uint64_t)tv[1].tv_usec * 1000ULL;
+  else fs().touched(it->second.file->ino);
+  return 0;
+}
+
+char* __wrap_mkdtemp(char* tmpl) {
+  if (!isSim(tmpl)) return __real_mkdtemp(tmpl);
+  size_t n = strlen(tmpl);
+  static unsigned counter = 0;
+  for (int tries = 0; tries < 100; tries++) {
+    char suffix[8];
+    snprintf(suffix, sizeof suffix, "%06u", counter++ % 1000000);
+    if (n >= 6) memcpy(tmpl + n - 6, suffix, 6);
+    if (fs().mkdir(tmpl, 0700) == 0) return tmpl;
+  }
+  errno = EEXIST;
+  return nullptr;
+}
+
+// ---- stdio on simulated files via fopencookie
+struct Cookie {
+  simfs::InodeP ino;
+  size_t off = 0;
+  bool append = false;
+};
+
+static ssize_t ckRead(void* c, char* buf, size_t n) {
+  Cookie* k = (Cookie*)c;
+  const std::string& d = k->ino->data;
+  if (k->off >= d.size()) return 0;
+  size_t m = std::min(n, d.size() - k->off);
+  size_t lim = simfs::freadChunk();
+  if (lim && m > lim) m = lim;
+  memcpy(buf, d.data() + k->off, m);
+  k->off += m;
+  return (ssize_t)m;
+}
+static ssize_t ckWrite(void* c, const char* buf, size_t n) {
+  Cookie* k = (Cookie*)c;
+  std::string& d = k->ino->data;
+  if (k->append) k->off = d.size();
+  if (d.size() < k->off + n) d.resize(k->off + n);
+  memcpy(&d[k->off], buf, n);
+  k->off += n;
+  fs().touched(k->ino);
+  return (ssize_t)n;
+}
+static int ckSeek(void* c, off64_t* off, int whence) {
+  Cookie* k = (Cookie*)c;
+  size_t base = whence == SEEK_SET ? 0 : whence == SEEK_CUR ? k->off : k->ino->data.size();
+  k->off = base + (size_t)*off;
+  *off = (off64_t)k->off;
+  return 0;
+}
+static int ckClose(void* c) {
+  delete (Cookie*)c;
+  return 0;
+}
+
+FILE* __wrap_fopen(const char* path, const char* mode) {
+  if (!isSim(path)) return __real_fopen(path, mode);
+  bool rd = mode[0] == 'r', wr = mode[0] == 'w', ap = mode[0] == 'a';
+  simfs::InodeP ino;
+  int rc;
+  if (rd) rc = fs().lookup(path, true, &ino);
+  else rc = fs().createFile(path, false, wr, &ino);
+  if (rc) {
+    errno = rc;
+    return nullptr;
+  }
+  if (ino->type == simfs::Inode::Dir && !rd) {
+    errno = EISDIR;
+    return nullptr;
+  }
+  Cookie* k = new Cookie();
+  k->ino = ino;
+  k->append = ap;
+  cookie_io_functions_t io = {ckRead, ckWrite, ckSeek, ckClose};
+  FILE* f = fopencookie(k, mode, io);
+  if (!f) delete k;
+  return f;
+}
+
+} // extern "C"
